@@ -28,7 +28,7 @@ from harness.lib.core import Rng
 
 VERBS = ["scan", "checkhash", "repair", "restore", "corrupt"]
 FOLDERS = ["fa", "fb", "root", ""]
-FILES = ["a", "b", "a.txt", "scan"]
+FILES = ["a", "b", "a.txt", "scan", "restore", "root", "fa"]
 FORCE_VALUES = [False, True, "create", "false", "", 0, 1, "True"]
 
 # op kind -> action discriminator (only on the node surface)
@@ -189,6 +189,18 @@ def oracle(fs, after_pre: bool) -> List[str]:
     return sorted(set(bad))
 
 
+def describe_impl(fs) -> str:
+    """The structural part of the real `describe_state()` in the driver's format (dict order as reported)."""
+    st = fs.describe_state()
+
+    def files(d):
+        return "(" + ",".join(f"{w(k)}=#{v['uuid']}" for k, v in d.items()) + ")"
+
+    def folders(d):
+        return "[" + ";".join(f"{w(k)}=#{v['uuid']}:{files(v['files'])}:{files(v['deleted_files'])}" for k, v in d.items()) + "]"
+    return (f"L{folders(st['folders'])} D{folders(st['deleted_folders'])} c={st['num_file_creations']} d={st['num_file_deletions']}")
+
+
 class Impl:
     """One real file system on the chosen surface."""
 
@@ -247,9 +259,9 @@ def run_impl(case: dict) -> Tuple[List[str], List[List[str]]]:
         except Exception as e:  # a request must answer, not raise
             status = "raised"
             verdicts.append(["raised:" + type(e).__name__])
-            out.append(f"{status} | {dump_impl(impl.fs)}")
+            out.append(f"{status} | {dump_impl(impl.fs)} | {describe_impl(impl.fs)}")
             continue
-        out.append(f"{status} | {dump_impl(impl.fs)}")
+        out.append(f"{status} | {dump_impl(impl.fs)} | {describe_impl(impl.fs)}")
         verdicts.append(oracle(impl.fs, after_pre=(op[0] == "pre")))
     return out, verdicts
 
